@@ -166,24 +166,40 @@ impl RingState {
     pub(crate) fn verif_dump(&self, now: Duration, out: &mut String) {
         use std::fmt::Write;
         let kind = |a: &PendingApply| match a {
-            PendingApply::Read { fd, len, offset, .. } => format!("R({fd},{len},{offset})"),
-            PendingApply::Write { fd, len, offset, .. } => format!("W({fd},{len},{offset})"),
+            PendingApply::Read {
+                fd, len, offset, ..
+            } => format!("R({fd},{len},{offset})"),
+            PendingApply::Write {
+                fd, len, offset, ..
+            } => format!("W({fd},{len},{offset})"),
             PendingApply::Fsync { fd } => format!("F({fd})"),
             PendingApply::ImmediateError(e) => format!("E({e})"),
         };
         let _ = write!(out, "depth={} sq=[", self.depth);
         for e in &self.sq {
             let op = match &e.op {
-                crate::squeue::OpKind::Read { fd, len, offset, .. } => format!("R({fd},{len},{offset})"),
-                crate::squeue::OpKind::Write { fd, len, offset, .. } => format!("W({fd},{len},{offset})"),
+                crate::squeue::OpKind::Read {
+                    fd, len, offset, ..
+                } => format!("R({fd},{len},{offset})"),
+                crate::squeue::OpKind::Write {
+                    fd, len, offset, ..
+                } => format!("W({fd},{len},{offset})"),
                 crate::squeue::OpKind::Fsync { fd } => format!("F({fd})"),
-                crate::squeue::OpKind::AsyncCancel { target_user_data } => format!("C({target_user_data})"),
+                crate::squeue::OpKind::AsyncCancel { target_user_data } => {
+                    format!("C({target_user_data})")
+                }
             };
             let _ = write!(out, "{}:{}:{:?} ", e.user_data, op, e.flags);
         }
         out.push_str("] inflight=[");
         for s in &self.inflight {
-            let _ = write!(out, "{}:{}@{:?} ", s.user_data, kind(&s.apply), s.when.saturating_sub(now));
+            let _ = write!(
+                out,
+                "{}:{}@{:?} ",
+                s.user_data,
+                kind(&s.apply),
+                s.when.saturating_sub(now)
+            );
         }
         out.push_str("] ready=[");
         for s in &self.ready {
